@@ -52,6 +52,12 @@ func runC12(c *Ctx) {
 			if staticCalleeIs(call, "(*lang.Lexer).GetLineAndCol") {
 				n++
 			}
+			// a funnel may hand over to another funnel (Parser.error = p.lexer.error): that one scans
+			for _, g := range funnels {
+				if g.name != f.name && call.Common().StaticCallee() != nil && call.Common().StaticCallee() == p.LangFunc(g.name) {
+					n++
+				}
+			}
 		}
 		c.check(n == 1, "R1", "funnel-single-scan "+f.name, p.Pos(fn.Pos()), "one GetLineAndCol call supplies line, column and text", fmt.Sprintf("%d GetLineAndCol calls: line, column and text may come from different scans", n))
 	}
